@@ -540,7 +540,7 @@ func init() {
 		Rule: "one case = one history (80/200 blocks + drain) that fills every queue at once: Bitcoin block hashes voted up to 16 at a time (and hostile batches that start at the tip, after a gap, rewrite an old height, carry 17 hashes), deposits (bursts above the cap of 8), withdrawals paid and refunded (cap 8 shared; a directed burst finalises a ten-withdrawal batch in the block that also refunds five), reward claims and matured unlocks (bursts above 16), with failing relayer messages, 1..3 abandoned proposal rounds (prepared, sometimes processed, never finalised) before every 4th block, a node restart every 11th, and every 9th block a payload whose system transactions were dropped/duplicated/altered/withheld (the last one, or every locking hand-over) forced into FinalizeBlock; " +
 			"owed log = generator ground truth at acceptance time; delivered log = leading system txs of finalised payloads whose block message succeeded; checker: per kind delivered is exactly the prefix of owed (once, FIFO, nothing invented), caps 1/8/8/16/16, consecutive nonces per module from 0, in-block layout, tampered payloads fail and consume nothing, abandoned rounds change no queue or nonce, voted tip = accepted batches and no voted hash is rewritten, and after a drain phase delivered = owed. Non-trivial = a finalised payload with system txs; distinct = per-kind counts in the block.",
 		Assume: []string{"'never dropped' is judged as bounded progress (drain of backlog/8 + remaining heights + 6 blocks, extended by at most 60 blocks while requested unlocks have not matured or owed items are outstanding)", "unlocks are owed from the moment they enter the delivery queue (C15 judges when they may)"},
-		Cases:  func(tier string) int { return map[string]int{"quick": 16, "thorough": 150}[tier] },
+		Cases:  func(tier string) int { return map[string]int{"quick": 32, "thorough": 150}[tier] },
 		Run:    func(c *vc.Ctx, i int) { c06History(c, i) },
 	})
 }
